@@ -9,6 +9,16 @@ C36  Fortran-to-Python transpilation preserves behaviour.
      use must either look at operand types / emit `//`-or-int() forms, or the
      transformation must rewrite integer quotients before printing.
  R3  Fortran-only spellings (.and. .or. .not. /=) do not leak into Python.
+ R4  DO loops become ranges with the right exclusive end: the text emitted by
+     ``PyCodegen.visit_Loop`` is parsed (placeholders substituted) and the stop
+     argument of a three-argument ``range`` must be ``<end> + (1 if <incr> > 0
+     else -1)`` -- one past the inclusive bound in the direction decided by the
+     *run-time* value of the stride.  ``<end> + <incr>`` over-runs whenever the
+     bound is not stride-aligned; a sign decision taken from the *spelling* of the
+     stride at generation time is wrong for variable strides.
+ R5  zero-based shifting keeps every component of a section: in
+     ``shift_to_zero_indexing`` a rebuilt ``RangeIndex`` carries start, stop and
+     step of the original (a dropped step turns a(2:n:2) into a[1:n]).
 Not decided: intrinsic mapping, array semantics, kinds.
 """
 import ast
@@ -85,8 +95,102 @@ def run(ctx):
     else:
         ctx.judge('R2', 'PyCodeMapper:Quotient', facts=facts)
 
+    # ---- R4
+    ctx.rule('R4', 'PyCodegen.visit_Loop: emitted range(start, stop, incr) has stop == end + (1 if incr > 0 else -1) (run-time sign), '
+                   'two-argument form end + 1')
+    ctx.rule('R5', 'shift_to_zero_indexing: every RangeIndex it rebuilds is constructed from (start.., stop, step) of the original')
+    G = m.get_class(PY, 'PyCodegen')
+    vl = G.function('visit_Loop')
+    if vl is None:
+        raise AnalysisError('PyCodegen.visit_Loop vanished')
+    # locals holding the rendered start / end / stride
+    names = {}
+    for k_, pat in (('start', '.bounds.start'), ('end', '.bounds.stop'), ('incr', '.bounds.step')):
+        from sa.exprs import names_assigned_from
+        got = names_assigned_from(vl.node, 'self.visit(', pat)
+        if not got:
+            raise AnalysisError(f'PyCodegen.visit_Loop: the rendered {k_} is not bound to a local')
+        names[k_] = got[0]
+    n4 = 0
+    # values that end up in the range text: follow plain assignments of f-strings to the `range(` template
+    fstrs = {}
+    for a_ in ast.walk(vl.node):
+        if isinstance(a_, ast.Assign) and isinstance(a_.targets[0], ast.Name) and isinstance(a_.value, (ast.JoinedStr, ast.IfExp)):
+            fstrs.setdefault(a_.targets[0].id, []).append(a_.value)
+
+    def render(js, depth=0):
+        """alternatives of the text produced by a JoinedStr / conditional of JoinedStrs; placeholders become identifiers"""
+        if isinstance(js, ast.IfExp):
+            return [(t, ('gen-time', ast.unparse(js.test))) for t, _ in render(js.body, depth) + render(js.orelse, depth)]
+        outs = [('', None)]
+        for v in js.values:
+            if isinstance(v, ast.Constant):
+                outs = [(o + str(v.value), w) for o, w in outs]
+            elif isinstance(v, ast.FormattedValue) and isinstance(v.value, ast.Name):
+                nm = v.value.id
+                rev = {names['start']: 'START', names['end']: 'END', names['incr']: 'INCR'}
+                if nm in rev:
+                    outs = [(o + rev[nm], w) for o, w in outs]
+                elif nm in fstrs and depth < 2:
+                    alts = [x for f_ in fstrs[nm] for x in render(f_, depth + 1)]
+                    outs = [(o + t, w or w2) for o, w in outs for t, w2 in alts]
+                else:
+                    outs = [(o + 'OTHER', w) for o, w in outs]
+            else:
+                outs = [(o + 'OTHER', w) for o, w in outs]
+        return outs
+    for a_ in ast.walk(vl.node):
+        if isinstance(a_, ast.JoinedStr) and any(isinstance(v, ast.Constant) and 'range(' in str(v.value) for v in a_.values):
+            for text, gen in render(a_):
+                try:
+                    call = ast.parse(text, mode='eval').body
+                except SyntaxError:
+                    raise AnalysisError(f'PyCodegen.visit_Loop: emitted text `{text}` is not an expression')
+                if not (isinstance(call, ast.Call) and getattr(call.func, 'id', '') == 'range'):
+                    continue
+                n4 += 1
+                inst = f'PyCodegen.visit_Loop:{text}'
+                if len(call.args) == 2:
+                    ok = ast.unparse(call.args[1]) == 'END + 1'
+                    why = 'two-argument range must end at <end> + 1'
+                else:
+                    stop = call.args[1]
+                    ok = gen is None and isinstance(stop, ast.BinOp) and isinstance(stop.op, ast.Add) and ast.unparse(stop.left) == 'END' \
+                        and isinstance(stop.right, ast.IfExp) and ast.unparse(stop.right.test) in ('INCR > 0', 'INCR >= 0') \
+                        and ast.unparse(stop.right.body) == '1' and ast.unparse(stop.right.orelse) == '-1' and ast.unparse(call.args[2]) == 'INCR'
+                    why = ('the exclusive end is chosen at code-generation time from the spelling of the stride' if gen else
+                           'the exclusive end is `' + ast.unparse(stop) + '`, not one past the inclusive bound in the direction of the stride')
+                if ok:
+                    ctx.judge('R4', inst)
+                else:
+                    ctx.violation('R4', 'PyCodegen.visit_Loop:range-stop', f'{vl.module.relpath}:{a_.lineno}',
+                                  f'emitted `{text}`: {why} -- do i=1,9,3 becomes range(1, 9 + 3, 3) = 1,4,7,10 (one iteration too many); '
+                                  f'a stride that is negative only at run time needs the sign test in the generated code', instance=inst)
+    ctx.floor('R4', 'range templates emitted by PyCodegen.visit_Loop', n4, 2)
+    sz = m.get_function('loki/transformations/array_indexing/array_indices.py', 'shift_to_zero_indexing')
+    n5 = 0
+    for c_ in ast.walk(sz.node):
+        if isinstance(c_, ast.Call) and (getattr(c_.func, 'attr', None) == 'RangeIndex' or getattr(c_.func, 'id', None) == 'RangeIndex') and c_.args \
+                and isinstance(c_.args[0], ast.Tuple):
+            n5 += 1
+            parts = [ast.unparse(e) for e in c_.args[0].elts]
+            inst = f'shift_to_zero_indexing:RangeIndex({", ".join(parts)})'
+            if len(parts) == 3 and parts[1].endswith('.stop') and parts[2].endswith('.step'):
+                ctx.judge('R5', inst)
+            else:
+                ctx.violation('R5', 'shift_to_zero_indexing:range-components', f'{sz.module.relpath}:{c_.lineno}',
+                              f'the shifted section is rebuilt as RangeIndex(({", ".join(parts)})): a component of the original section is '
+                              f'dropped (a(2:n:2) becomes a[1:n], every element instead of every second one)', instance=inst)
+    ctx.floor('R5', 'RangeIndex rebuilds in shift_to_zero_indexing', n5, 1)
+
 
 MUTANTS = [
+    Mutant('range-end-plus-stride', PY, "cntrl = f'range({start}, {end} + (1 if {incr} > 0 else -1), {incr})'", "cntrl = f'range({start}, {end} + {incr}, {incr})'",
+           expect=('R4', 'range-stop')),
+    Mutant('range-sign-from-spelling', PY, "            cntrl = f'range({start}, {end} + (1 if {incr} > 0 else -1), {incr})'",
+           "            stop = f'{end} - 1' if incr.startswith('-') else f'{end} + 1'\n            cntrl = f'range({start}, {stop}, {incr})'", expect=('R4', 'range-stop')),
+    Mutant('zero-shift-drops-step', 'loki/transformations/array_indexing/array_indices.py', "                    new_dims += [sym.RangeIndex((start, d.stop, d.step))]",
+           "                    new_dims += [sym.RangeIndex((start, d.stop))]", expect=('R5', 'range-components')),
     Mutant('py-not-fortran-spelling', PY,
            "    map_int_literal = map_float_literal\n",
            "    map_int_literal = map_float_literal\n\n    def map_logical_not(self, expr, enclosing_prec, *args, **kwargs):\n        return self.parenthesize_if_needed('.not.' + self.rec(expr.child, 13, *args, **kwargs), enclosing_prec, 13)\n",
